@@ -71,8 +71,15 @@ class Contract(object):
         self.requires_.append((name or "pre%d" % len(self.requires_), src))
         return self
 
-    def ensures(self, src, name=None):
-        self.ensures_.append((name or "post%d" % len(self.ensures_), src))
+    def ensures(self, src, name=None, assume=True):
+        """assume=False: proved against the body but not assumed at call sites (callers do not
+        need it; skipping it only weakens what callers may rely on)."""
+        n = name or "post%d" % len(self.ensures_)
+        self.ensures_.append((n, src))
+        if not assume:
+            if not hasattr(self, 'not_assumed_'):
+                self.not_assumed_ = set()
+            self.not_assumed_.add(n)
         return self
 
     def raises(self, exc, when=None, ensures=None, name=None, fields=None, emits=None):
